@@ -205,6 +205,14 @@ async def transfer(net, hyg, plan):
                 await cm.connect("127.0.0.1", 2121)
                 await cm.login()
                 try:
+                    # looking at the file (MLST, MLSD, LIST) while it is being written is reading too: it changes nothing
+                    await cm.stat("/d/f.bin")
+                    await cm.list("/d")
+                    await cm.list("/d", raw_command="LIST")
+                    mon["stat_during_upload"] = mon.get("stat_during_upload", 0) + 1
+                except aioftp.StatusCodeError:
+                    pass
+                try:
                     async with cm.download_stream("/d/f.bin") as sm:
                         reading.set()
                         async for _b in sm.iter_by_block(512):
